@@ -53,7 +53,9 @@ CONTEXTS = ['%s', 'a{%s}', 'a{b:%s}', '%s{c:d}', '@media all{%s}', '@page{%s}', 
             'a{b:c}%s', '@x %s;', 'STYLE',
             # in the middle of a construct (used with the full alphabet only): after a value, after a selector part, after a medium,
             # between two declarations, after a function argument
-            'a{b:c %s}', 'a %s{c:d}', '@media tv %s{a{b:c}}', 'a{b:c;%s;d:e}', 'a{b:f(1 %s)}']
+            'a{b:c %s}', 'a %s{c:d}', '@media tv %s{a{b:c}}', 'a{b:c;%s;d:e}', 'a{b:f(1 %s)}',
+            # behind a complete priority, behind a complete page selector, behind an import target, behind a namespace URI
+            'a{b:c !important %s;d:e}', '@page :first %s{b:c}', '@import "x" %s;', '@namespace p "u" %s;']
 N_BASE_CONTEXTS = 12
 CONFIGS = [(True, True), (False, False), (True, False), (False, True)]  # (parseComments, validate)
 
